@@ -35,7 +35,8 @@ LEVEL_TEXT = ("Exploration: thousands of collinear trees (chains of 2-40 nodes, 
               "origin) at every analytic level 3..9 and the named levels, plus all generic shape "
               "classes at levels 1-2. Held = held on those executions."
               "The same skeleton is measured again with other radii, as a second tree object and after an in-place edit through node handles; half of the trees carry a file source."
-              " One layout in three is expressed in another length unit (x 1e-3, 1e-2, 1e2, 1e3).")
+              " One layout in three is expressed in another length unit (x 1e-3, 1e-2, 1e2, 1e3)."
+              " Levels are also numpy integers / 0-d arrays; a failing get_volume call on an un-rebased table precedes a third of the measurements.")
 LEVEL_NOTE = ("Levels 5-9 on a root with two opposite arms run the library's sampled "
               "cone-cone term (identically zero there); only a few such cases run per shard because "
               "each costs seconds. Tolerance rtol 2e-4 (the library accumulates in float32). "
